@@ -34,6 +34,7 @@ func init() {
 
 func genC14(r *simrt.Rand, tier string) (Cfg, *Program) {
 	pf := baseProfile()
+			pf.WrapDeqPct = 15 // user-supplied queues that refuse a dequeue now and then
 	pf.WKinds = allW
 	pf.Conc = []int{1, 2, 3}
 	pf.Expiry = []int{0, 0, 50}
